@@ -1,7 +1,7 @@
 /-
   C01, upstream side — what the REAL upstream transports do with the octets a server sends as a reply.
 
-  Mirrors (as of 31b269e)
+  Mirrors (as of 941027f)
     internal/dnsutils/net_io.go          ReadMsgFromTCP, ReadMsgFromUDP
     internal/upstream/transport/
       pipeline_conn.go                   readLoop (read · decode · non-blocking hand-over to the waiter), exchange
@@ -12,7 +12,7 @@
 
   Component `upreply` (harness/cmd/mvharness/c01_upreply.go): a scripted server answers the first query of a
   fresh upstream with arbitrary octets and behaves correctly afterwards.
-    case : tr=<scheme> sc=<tok,…> …            impl : next=<ok|fail> first=<resp|err|hang> mem=<ok|big> lost=<k> ## …
+    case : tr=<scheme> sc=<tok,…> …            impl : next=<ok|fail> first=<resp|err|nil|hang> mem=<ok|big> lost=<k> an=<n|-> ## …
   The model predicts `first` from the script by running its own decoder (`Wire.unpackMsg`) on the octets the
   transport would hand to the decoder; where the outcome depends on a race inside the real code (a reply
   delivered to the waiter and the connection closed right after it; a reset that may overtake data) it is
@@ -110,9 +110,43 @@ inductive UnitRes where
   | msg (m : Msg) | skip | close | panic
   deriving Repr, DecidableEq
 
-/-- One read of the loop. TCP: a frame that does not decode closes the connection. UDP: the datagram is cut to
-    the read buffer; one that does not decode is skipped if it had octets (`n > 0 → continue`), an empty one
-    falls through to `closeWithErr`. -/
+def emptyHeader : Header := headerOfBits 0 0
+
+/-- The header-only message `ReadMsgFromUDP` makes of a datagram that does not decode but has at least the
+    12 header octets and TC set (`n >= 12 && b[2]&(1<<1) != 0`): id, QR and TC=1, no records (82eb250). -/
+def headerOnly (d : Bytes) : Option Msg :=
+  match d with
+  | a :: b :: f :: _ =>
+    if d.length ≥ 12 ∧ (f.toNat / 2) % 2 = 1 then
+      some ⟨{ emptyHeader with id := be16 a b, response := (f.toNat / 128) % 2 = 1, truncated := true }, [], [], [], []⟩
+    else none
+  | _ => none
+
+/-- Outcome of `dnsutils.ReadMsgFromUDP` on one datagram `b` (cut to the read buffer by the socket read). -/
+inductive UdpRead where
+  | msg (m : Msg)      -- decoded, or the header-only stand-in of an undecodable TC reply
+  | bad (n : Nat)      -- error, `n` octets were read
+  | panic
+  deriving Repr, DecidableEq
+
+def readMsgFromUDPn (buf : Nat) (b : Bytes) : UdpRead :=
+  match unpackMsg (b.take buf) with
+  | .ok m => .msg m
+  | .err =>
+    (match headerOnly (b.take buf) with
+     | some m => .msg m
+     | none => .bad (b.take buf).length)
+  | .panic => .panic
+
+/-- with the read buffer of the code -/
+def readMsgFromUDP (b : Bytes) : UdpRead := readMsgFromUDPn udpBuf b
+
+/-- no UDP datagram is larger (the specification reads a datagram whole) -/
+def maxDatagram : Nat := 65535
+
+/-- One read of the loop. TCP: a frame that does not decode closes the connection. UDP: a datagram that
+    yields no message is skipped if it had octets (`n > 0 → continue`), an empty one falls through to
+    `closeWithErr`. -/
 def unitStep (isTCP : Bool) (b : Bytes) : UnitRes :=
   if isTCP then
     match unpackMsg b with
@@ -120,10 +154,9 @@ def unitStep (isTCP : Bool) (b : Bytes) : UnitRes :=
     | .err => .close
     | .panic => .panic
   else
-    let d := b.take udpBuf
-    match unpackMsg d with
-    | .ok m => .msg m
-    | .err => if d.length > 0 then .skip else .close
+    match readMsgFromUDP b with
+    | .msg m => .msg m
+    | .bad n => if n > 0 then .skip else .close
     | .panic => .panic
 
 inductive End where
@@ -380,8 +413,14 @@ def clientView (tr : String) (h : Http) (t : Term) : View :=
       else if tr = "http" ∧ t = .close then .body h.body
       else .cut h.body
 
+/-- h3: the test server (quic-go) resets the stream when the handler is aborted (`c`, `r`) or asks for a status
+    code that is none (below 100, above 999). -/
+def h3Reset (tr : String) (toks : List Tok) : Bool :=
+  tr == "h3" && (termOf toks == .close || termOf toks == .reset ||
+    (httpOf toks ⟨200, none, false, [], false⟩).st < 100 || (httpOf toks ⟨200, none, false, [], false⟩).st > 999)
+
 def dohFirst (tr : String) (toks : List Tok) : First :=
-  if (httpOf toks ⟨200, none, false, [], false⟩).raw ∨ termOf toks = .reset ∨ (tr = "h3" ∧ termOf toks = .close) then .any
+  if (httpOf toks ⟨200, none, false, [], false⟩).raw ∨ termOf toks = .reset ∨ h3Reset tr toks = true then .any
   else if (httpOf toks ⟨200, none, false, [], false⟩).st ≠ 200 then .err
   else match clientView tr (httpOf toks ⟨200, none, false, [], false⟩) (termOf toks) with
     | .httpErr => .err
@@ -433,6 +472,32 @@ def predictFirst (c : Case) : First :=
   else if c.tr == "udp" then udpFirst (dgramsOf c.toks) c.tleg
   else dohFirst c.tr c.toks
 
+def dohMsg (tr : String) (toks : List Tok) : Option Msg :=
+  match clientView tr (httpOf toks ⟨200, none, false, [], false⟩) (termOf toks) with
+  | .body b => (match dohExchange false 200 (-1) b false with | .ok m => some m | _ => none)
+  | .cut b => (match dohExchange false 200 (-1) b true with | .ok m => some m | _ => none)
+  | _ => none
+
+/-- Number of answer records of the reply the first exchange returns, where the model knows which reply that
+    is ("returned as received"); the proper reply of the test server has one. -/
+def firstAn (c : Case) : Option Nat :=
+  if c.wstall then none
+  else if isReuse c.tr then
+    (match reuseExchange 0 (streamOf c.toks) with | .ok (m, _) => some m.answers.length | _ => none)
+  else if isPipe c.tr then
+    (delivered (runLoop false true [(0, ⟨[], 1⟩)] 0 ((frames (streamOf c.toks)).1.map .unit)).1 0).map (·.answers.length)
+  else if c.tr == "quic" then
+    (match readMsgFromTCP (streamOf c.toks) with | .msg m _ => some m.answers.length | _ => none)
+  else if c.tr == "udp" then
+    (match delivered (runLoop false false [(0, ⟨[], 1⟩)] 0 ((dgramsOf c.toks).map .unit)).1 0 with
+     | some m =>
+       if m.hdr.truncated then
+         (if c.tleg.isEmpty then some 1
+          else match reuseExchange 0 (streamOf c.tleg) with | .ok (m', _) => some m'.answers.length | _ => none)
+       else some m.answers.length
+     | none => none)
+  else (dohMsg c.tr c.toks).map (·.answers.length)
+
 /-- Is the number of follow-up exchanges that get no answer known to be 0?  Not on a one-at-a-time connection
     (tcp, tls, HTTP/1.1) that went back to the pool although the server left unread octets on it or went silent
     on it: the next query on it is lost with it (its own deadline comes before the transport's 6 s). -/
@@ -462,12 +527,32 @@ def decodesWithId (b : Bytes) (id : Option Nat) : Bool :=
   | .ok m => (match id with | some i => m.hdr.id == i | none => true)
   | _ => false
 
+/-- a datagram whose header carries TC and the given id: the udp upstream answers it with the TCP retry -/
+def tcHeaderWithId (d : Bytes) (id : Nat) : Bool :=
+  match headerOnly d with
+  | some m => m.hdr.id == id
+  | none => false
+
+/-- Cases in which the first exchange must return a reply: the server sent exactly one datagram, it yields a
+    message for the query's id (read whole, whatever buffer the code uses), and, if that message says TC, the TCP service of the server is the correct one. -/
+def mustAnswer (c : Case) : Bool :=
+  !c.wstall && c.tr == "udp" &&
+    (match dgramsOf c.toks with
+     | [d] =>
+       (match readMsgFromUDPn maxDatagram d with
+        | .msg m => m.hdr.id == 0 && (!m.hdr.truncated || c.tleg.isEmpty)
+        | _ => false)
+     | _ => false)
+
 def justified (c : Case) : Bool :=
   if c.wstall then true      -- the server answers the query properly once it reads again
   else if isReuse c.tr ∨ isPipe c.tr then (frames (streamOf c.toks)).1.any (decodesWithId · (some 0))
   else if c.tr == "quic" then (frames (streamOf c.toks)).1.any (decodesWithId · none)
-  else if c.tr == "udp" then (dgramsOf c.toks).any (fun d => decodesWithId (d.take udpBuf) (some 0))
+  else if c.tr == "udp" then (dgramsOf c.toks).any (fun d => decodesWithId (d.take udpBuf) (some 0) || tcHeaderWithId (d.take udpBuf) 0)
   else
+    -- h3 (941027f, adb1d73): a stream reset is an http3 error; the DoH transport sends the (idempotent) request
+    -- again, and the server answers the repeated request properly
+    h3Reset c.tr c.toks ||
     let h := httpOf c.toks ⟨200, none, false, [], false⟩
     -- octets below HTTP can make the HTTP client repeat the request on a new connection (e.g. GOAWAY), where the
     -- server answers properly
@@ -485,7 +570,7 @@ structure Out where
 
 def spec (c : Case) (o : Out) : Bool :=
   o.next == "ok" && o.mem == "ok" && (o.first == "resp" || o.first == "err") &&
-    (o.first != "resp" || justified c)
+    (o.first != "resp" || justified c) && (o.first != "err" || !mustAnswer c)
 
 def verdict (c : Case) (impl : String) : String :=
   if impl == "panic" then "viol:panic"
@@ -499,6 +584,7 @@ def verdict (c : Case) (impl : String) : String :=
       else if f == "nil" then "viol:neither-reply-nor-error"
       else if m != "ok" then "viol:allocation-follows-a-length-field"
       else if f == "resp" && !justified c then "viol:returned-a-reply-nobody-sent"
+      else if f == "err" && mustAnswer c then "viol:dropped-the-only-reply"
       else if spec c ⟨n, f, m⟩ then "ok" else "unparsed"
     | _, _, _ => "unparsed"
 
@@ -511,6 +597,11 @@ def run (case impl : String) : String × String :=
       | .any => (kvGet it "first").getD "any"
       | f => f.str
     let lost := if lostKnown c then "0" else (kvGet it "lost").getD "?"
-    (s!"next=ok first={first} mem=ok lost={lost}", verdict c impl)
+    let echoAn := (kvGet it "an").getD "?"
+    let an := match predictFirst c with
+      | .err => "-"
+      | .resp => (match firstAn c with | some n => toString n | none => echoAn)
+      | _ => echoAn
+    (s!"next=ok first={first} mem=ok lost={lost} an={an}", verdict c impl)
 
 end MosVerif.UpReply
